@@ -105,11 +105,12 @@ class RawSubscriber:
     """Subscribes at the provider with hand-written requests (no library consumer involved).  Every request / response is on the network's
     wire log, tagged ``extra['vf_raw']`` (the request part of such an entry is harness input, only the response is the provider's)."""
 
-    def __init__(self, net, provider_netloc: str, device_address: str):
+    def __init__(self, net, provider_netloc: str, device_address: str, sink_scheme: str = 'https'):
         self.net, self.provider_netloc, self.device_address = net, provider_netloc, device_address
         self.port = int(provider_netloc.rsplit(':', 1)[1])
-        self.sink_a = net.new_server(scheme='https')
-        self.sink_b = net.new_server(scheme='https')
+        # the sinks speak what the provider is configured to speak (they are reachable for it), whatever scheme the Subscribe writes
+        self.sink_a = net.new_server(scheme=sink_scheme)
+        self.sink_b = net.new_server(scheme=sink_scheme)
         self.sinks = {}
         for srv in (self.sink_a, self.sink_b):
             s = Sink()
